@@ -46,6 +46,8 @@ for p in props:
     pid = p["id"]
     if pid in CHECKS:
         tech, text, note, ref = CHECKS[pid]
+        text += (" Each run first drives the size ladders, rare-value programs and hosted operations of seedverif/scale.py that concern this property "
+                 "(sizes 0..40 densely, then 2^k-1, 2^k, 2^k+1 up to 2049 elements, depth 257, 70000 lines/columns/bytes; DESIGN.md 11.8) through the reference model.")
         m["checks"].append({
             "property_id": pid,
             "quick_cmd": "./check %s --tier quick" % pid,
